@@ -125,6 +125,36 @@ pub fn resp_check(kind: Kind, mode: Mode, model: &Value, info: RInfo, obs: &mut 
                     case(&dirty),
                 ));
             }
+            // the same value as a handler's answer, through the dispatch entry points: what
+            // reaches the wire must be what the handler returned
+            {
+                let entry = (n_entries + prior) % 2;
+                let ename = ["call_ctap2", "Rpc::call"][entry];
+                obs.labelf(format!("via-dispatch:{}", ename));
+                match crate::echo::through_dispatch(&resp, entry).map_err(|e| Fail::new("C02:harness:dispatch", e, case(&out)))? {
+                    Ok(r) => {
+                        let via = serialize_full(&r);
+                        if via != out {
+                            let what = match check_encoding(kind, &model, &via) {
+                                Err(m) => m,
+                                Ok(()) => "bytes differ".to_string(),
+                            };
+                            return Err(Fail::new(
+                                format!("C02:{}:changed-by-dispatch:{}", kind.name(), sig_of("", "", &what)),
+                                format!("{} response returned by the handler is encoded differently after {}: {}", kind.name(), ename, what),
+                                case(&via),
+                            ));
+                        }
+                    }
+                    Err(st) => {
+                        return Err(Fail::new(
+                            format!("C02:{}:dispatch-status:0x{:02x}", kind.name(), st),
+                            format!("{}: handler returned Ok(value) but {} returned status 0x{:02x}", kind.name(), ename, st),
+                            case(&out),
+                        ))
+                    }
+                }
+            }
             if kind == Kind::GetAssertion {
                 let next = build(Kind::GetNextAssertion, &model)
                     .map_err(|e| Fail::new("C02:harness:build", e, case(&out)))?;
